@@ -97,6 +97,182 @@ def clockTimeToSec (h m s : Int) (pm : Bool) : Option Int :=
   let t := if h = 12 ∨ (120 ≤ h ∧ h < 130) ∨ (1200 ≤ h ∧ h < 1300) then t - 43200 else t
   if pm then (if t ≥ 43200 then none else some (t + 43200)) else some t
 
+/-! ### clock strings of rules (`ControlCondition._sec_to_clock`, `_parse_value` as repaired by 7806f17d) -/
+
+/-- `_sec_to_clock`: the hour shown on a 12-hour clock -/
+def clockHour (sec : Int) : Int :=
+  if sec / 3600 ≥ 12 then (if sec / 3600 > 12 then sec / 3600 - 12 else sec / 3600)
+  else if sec / 3600 = 0 then 12 else sec / 3600
+
+def clockPm (sec : Int) : Bool := decide (sec / 3600 ≥ 12)
+
+/-- `_sec_to_clock`: (hour shown, minutes, seconds, isPM) -/
+def secToClock (sec : Int) : Int × Int × Int × Bool :=
+  (clockHour sec, (hmsOf sec).2.1, (hmsOf sec).2.2, clockPm sec)
+
+/-- `_parse_value` on `h:mm:ss AM|PM`: 12:xx AM is 00:xx, 12:xx PM is 12:xx; PM adds 12 h for hours ≤ 12 -/
+def parseClock (h m s : Int) (pm : Bool) : Int :=
+  let v := h * 3600 + m * 60 + s
+  let v := if h = 12 then v - 12 * 3600 else v
+  if h ≤ 12 then v + (if pm then 43200 else 0) else v
+
+/-- decimal hours with six significant digits (`'{:g}'.format(sec / 3600.)`, for 1 ≤ hours < 10) read back by
+`int(float(x) * 3600)` — what `_write_controls` did before the repair -/
+def legacyTimeRoundtrip (sec : Int) : Int :=
+  let hours : Rat := (sec : Rat) / 3600
+  let g6 : Rat := ((hours * 100000 + 1 / 2).floor : Rat) / 100000
+  (g6 * 3600).floor
+
+/-! ### simple controls (`InpFile._write_controls`, `_read_control_line`) -/
+
+/-- what a line is made of; numbers other than times are opaque tokens (their formatting is not modelled) -/
+inductive Tok where
+  | word (s : String)
+  | hms (h m s : Int)
+  | num (v : Int)
+  deriving Repr, DecidableEq, Inhabited
+
+inductive NodeKind where
+  | junction | tank
+  deriving Repr, DecidableEq, Inhabited
+
+inductive Attr where
+  | level | pressure | head
+  deriving Repr, DecidableEq, Inhabited
+
+/-- the attribute a [CONTROLS] line means for a node of that kind -/
+def NodeKind.attr : NodeKind → Attr
+  | .junction => .pressure
+  | .tank => .level
+
+inductive CtlCond where
+  | time (sec : Int)
+  | clock (sec : Int)
+  /-- `ValueCondition(node, attr, above/below, thresh)`; `elev` is the node's elevation (known to writer and reader) -/
+  | node (kind : NodeKind) (name : String) (elev : Int) (attr : Attr) (above : Bool) (thresh : Int)
+  deriving Repr, DecidableEq, Inhabited
+
+structure Ctl where
+  linkType : String
+  link : String
+  setting : Tok
+  cond : CtlCond
+  deriving Repr, DecidableEq, Inhabited
+
+def kindWord : NodeKind → String
+  | .junction => "Junction"
+  | .tank => "Tank"
+
+/-- `_write_controls` (repaired: time as `h:mm:ss`, a head threshold reduced by the elevation) -/
+def printCtl (c : Ctl) : List Tok :=
+  let pre := [Tok.word c.linkType, .word c.link, c.setting]
+  match c.cond with
+  | .time sec => let (h, m, s) := hmsOf sec; pre ++ [.word "AT", .word "TIME", .hms h m s]
+  | .clock sec => let (h, m, s) := hmsOf sec; pre ++ [.word "AT", .word "CLOCKTIME", .hms h m s]
+  | .node k n e a ab th =>
+    pre ++ [.word "IF", .word (kindWord k), .word n, .word (if ab then "above" else "below"),
+            .num (if a = .head then th - e else th)]
+
+/-- the writer before the repair of the head threshold -/
+def printCtlLegacy (c : Ctl) : List Tok :=
+  match c.cond with
+  | .node k n _ _ ab th =>
+    [Tok.word c.linkType, .word c.link, c.setting, .word "IF", .word (kindWord k), .word n, .word (if ab then "above" else "below"), .num th]
+  | _ => printCtl c
+
+/-- `_read_control_line`; `lookup name` is `wn.get_node(name)`: kind and elevation -/
+def parseCtl (lookup : String → Option (NodeKind × Int)) : List Tok → Option Ctl
+  | [.word lt, .word l, st, .word "AT", .word "TIME", .hms h m s] => some ⟨lt, l, st, .time (strTimeToSec h m s)⟩
+  | [.word lt, .word l, st, .word "AT", .word "CLOCKTIME", .hms h m s] => some ⟨lt, l, st, .clock (strTimeToSec h m s)⟩
+  | [.word lt, .word l, st, .word "IF", .word _, .word n, .word rel, .num th] =>
+    match lookup n with
+    | some (k, e) =>
+      if rel = "above" then some ⟨lt, l, st, .node k n e k.attr true th⟩
+      else if rel = "below" then some ⟨lt, l, st, .node k n e k.attr false th⟩
+      else none
+    | none => none
+  | _ => none
+
+/-- the condition the INP line means: a head condition in the datum of the section -/
+def CtlCond.norm : CtlCond → CtlCond
+  | .node k n e a ab th => .node k n e k.attr ab (if a = .head then th - e else th)
+  | c => c
+
+/-- the node named in a condition is the node the reader finds (same kind and elevation) -/
+def CtlCond.wf (lookup : String → Option (NodeKind × Int)) : CtlCond → Prop
+  | .node k n e a _ _ => lookup n = some (k, e) ∧ (a = .head ∨ a = k.attr)
+  | .time sec => 0 ≤ sec
+  | .clock sec => 0 ≤ sec
+
+/-! ### rules as lines (`_EpanetRule.__str__`, `parse_rules_lines`, `generate_control`) -/
+
+inductive Kw where
+  | if_ | and_ | or_ | then_ | else_ | priority
+  deriving Repr, DecidableEq, Inhabited
+
+def Conj.kw : Conj → Kw
+  | .if_ => .if_
+  | .and_ => .and_
+  | .or_ => .or_
+
+/-- a rule over abstract condition atoms `α` and actions `β` -/
+structure Rule (α β : Type) where
+  cond : Cond α
+  thens : List β
+  elses : List β
+  priority : Int
+  deriving Repr, DecidableEq
+
+/-- one line of a rule: keyword and payload (an atom, an action or the priority number) -/
+inductive Payload (α β : Type) where
+  | atom (a : α)
+  | act (b : β)
+  | prio (p : Int)
+  deriving Repr, DecidableEq
+
+def actLines {α β : Type} (first : Kw) : List β → List (Kw × Payload α β)
+  | [] => []
+  | b :: bs => (first, .act b) :: bs.map fun x => (Kw.and_, .act x)
+
+/-- `from_if_then_else` + `__str__`: IF/AND/OR clauses, THEN a AND b …, ELSE a AND b …, PRIORITY p when p ≥ 0 -/
+def printRule {α β : Type} (r : Rule α β) : List (Kw × Payload α β) :=
+  (flatten r.cond .if_).map (fun cl => (cl.1.kw, Payload.atom cl.2)) ++ actLines .then_ r.thens ++ actLines .else_ r.elses ++
+    (if r.priority ≥ 0 then [(Kw.priority, Payload.prio r.priority)] else [])
+
+inductive Mode where
+  | none | inIf | inThen | inElse
+  deriving Repr, DecidableEq, Inhabited
+
+/-- parser state of `parse_rules_lines` for one rule (lists are in order) -/
+structure PState (α β : Type) where
+  mode : Mode
+  ifs : List (Conj × α)
+  thens : List β
+  elses : List β
+  priority : Int
+
+def PState.init {α β : Type} : PState α β := ⟨.none, [], [], [], 0⟩
+
+/-- one (keyword, payload) line: IF/THEN/ELSE/PRIORITY switch the block, AND/OR continue the current block -/
+def stepR {α β : Type} (st : PState α β) (ln : Kw × Payload α β) : PState α β :=
+  match ln.1, ln.2, st.mode with
+  | .if_, .atom a, _ => { st with mode := .inIf, ifs := st.ifs ++ [(.if_, a)] }
+  | .then_, .act b, _ => { st with mode := .inThen, thens := st.thens ++ [b] }
+  | .else_, .act b, _ => { st with mode := .inElse, elses := st.elses ++ [b] }
+  | .priority, .prio p, _ => { st with mode := .none, priority := p }
+  | .and_, .atom a, .inIf => { st with ifs := st.ifs ++ [(.and_, a)] }
+  | .or_, .atom a, .inIf => { st with ifs := st.ifs ++ [(.or_, a)] }
+  | .and_, .act b, .inThen => { st with thens := st.thens ++ [b] }
+  | .and_, .act b, .inElse => { st with elses := st.elses ++ [b] }
+  | _, _, _ => st
+
+/-- `parse_rules_lines` then `generate_control` -/
+def parseRule {α β : Type} (lines : List (Kw × Payload α β)) : Option (Rule α β) :=
+  let st := lines.foldl stepR PState.init
+  match parse st.ifs with
+  | some c => some ⟨c, st.thens, st.elses, st.priority⟩
+  | none => none
+
 end Wntr.InpText
 
 /-! ## `InpSchema` — the shape of the INP section writers / readers (wntr/epanet/io.py)
